@@ -9,6 +9,7 @@ import (
 	"encoding/json"
 	"fmt"
 	"io"
+	"math/rand"
 	"reflect"
 	"sort"
 	"strings"
@@ -18,6 +19,7 @@ import (
 	"github.com/networkteam/qrb/builder"
 	"verif/internal/dump"
 	"verif/internal/gen"
+	"verif/internal/registry"
 )
 
 type apiStep struct {
@@ -254,10 +256,15 @@ func runAPI(out io.Writer, seed int64, n int, depth int) {
 		{"SelectJson", reflect.ValueOf(qrb.SelectJson)}}
 	// every expression constructor / method call made while arguments and statements are generated
 	ctorBudget := n / 2
+	var record func(name, owner string, typ reflect.Type, isMethod bool, args []reflect.Value, outv reflect.Value, prog string)
 	g.OnCall = func(name, owner string, typ reflect.Type, isMethod bool, args []reflect.Value, outv reflect.Value, prog string) {
 		if ctorBudget <= 0 || g.Rng.Intn(3) != 0 {
 			return
 		}
+		ctorBudget--
+		record(name, owner, typ, isMethod, args, outv, prog)
+	}
+	record = func(name, owner string, typ reflect.Type, isMethod bool, args []reflect.Value, outv reflect.Value, prog string) {
 		pkg, bare, _ := strings.Cut(name, ".")
 		step := apiStep{Prog: prog, Recv: "nil"}
 		mt := typ
@@ -312,9 +319,10 @@ func runAPI(out io.Writer, seed int64, n int, depth int) {
 			step.Mutated += " arguments"
 		}
 		id++
-		ctorBudget--
 		enc.Encode(step)
 	}
+	// systematic part: every constructor and every operator / predicate method over a catalogue of operand shapes
+	apiCatalogue(g, seed, n/4, record)
 	for id < n {
 		var cur reflect.Value
 		prog := ""
@@ -449,5 +457,150 @@ func runAPI(out io.Writer, seed int64, n int, depth int) {
 			enc.Encode(step)
 			cur, prog = nv, prog+pl.Prog
 		}
+	}
+}
+
+// apiCatalogue applies the expression constructors of packages qrb / builder and the methods the catalogue values
+// inherit or declare to a fixed catalogue of operand shapes: all one-operand calls, and a seeded sample (at most
+// budget) of the two-operand ones.
+func apiCatalogue(g *gen.Gen, seed int64, budget int, record func(name, owner string, typ reflect.Type, isMethod bool, args []reflect.Value, outv reflect.Value, prog string)) {
+	type item struct {
+		v reflect.Value
+		p string
+	}
+	mk := func(x any, p string) item { return item{reflect.ValueOf(x), p} }
+	sel := qrb.Select(qrb.N("a")).From(qrb.N("t"))
+	cat := []item{
+		mk(qrb.N("a"), `N("a")`), mk(qrb.N("t.b"), `N("t.b")`), mk(qrb.Int(5), "Int(5)"), mk(qrb.Int(0), "Int(0)"), mk(qrb.Int(-3), "Int(-3)"),
+		mk(qrb.Float(1.5), "Float(1.5)"), mk(qrb.String("x"), `String("x")`), mk(qrb.Bool(true), "Bool(true)"), mk(qrb.Null(), "Null()"),
+		mk(qrb.Arg(pool[1]), "Arg(pool[1])"), mk(qrb.Bind("b"), `Bind("b")`), mk(qrb.Interval("1 day"), `Interval("1 day")`),
+		mk(qrb.N("a").Eq(qrb.Int(1)), `N("a").Eq(Int(1))`), mk(qrb.N("a").Plus(qrb.N("b")), `N("a").Plus(N("b"))`),
+		mk(qrb.N("a").Mult(qrb.N("b")), `N("a").Mult(N("b"))`), mk(qrb.N("a").Concat(qrb.String("s")), `N("a").Concat(String("s"))`),
+		mk(builder.Neg(qrb.N("a")), `Neg(N("a"))`), mk(qrb.Not(qrb.N("a")), `Not(N("a"))`),
+		mk(qrb.And(qrb.N("a"), qrb.N("b")), `And(N("a"), N("b"))`), mk(qrb.Or(qrb.N("a"), qrb.N("b")), `Or(N("a"), N("b"))`),
+		mk(qrb.And(qrb.N("a")), `And(N("a"))`), mk(qrb.N("a").IsNull(), `N("a").IsNull()`), mk(qrb.N("a").Like(qrb.String("x%")), `N("a").Like(String("x%"))`),
+		mk(qrb.N("a").In(qrb.Exps(qrb.Int(1), qrb.Int(2))), `N("a").In(Exps(Int(1), Int(2)))`), mk(qrb.N("a").Cast("int"), `N("a").Cast("int")`),
+		mk(qrb.Func("f", qrb.N("a")), `Func("f", N("a"))`), mk(qrb.Func("f").As("x"), `Func("f").As("x")`),
+		mk(qrb.Agg("count", []builder.Exp{qrb.N("a")}), `Agg("count", N("a"))`), mk(qrb.Agg("sum", []builder.Exp{qrb.N("a")}).Distinct(), `Agg("sum", N("a")).Distinct()`),
+		mk(qrb.Case().When(qrb.N("a")).Then(qrb.Int(1)).End(), `Case().When(N("a")).Then(Int(1)).End()`),
+		mk(qrb.Coalesce(qrb.N("a"), qrb.Int(0)), `Coalesce(N("a"), Int(0))`), mk(qrb.Greatest(qrb.N("a"), qrb.Int(1)), `Greatest(N("a"), Int(1))`),
+		mk(qrb.Least(qrb.N("a"), qrb.Int(9)), `Least(N("a"), Int(9))`), mk(qrb.NullIf(qrb.N("a"), qrb.Int(0)), `NullIf(N("a"), Int(0))`),
+		mk(qrb.Exps(qrb.Int(1), qrb.Int(2)), "Exps(Int(1), Int(2))"), mk(qrb.Array(qrb.Int(1), qrb.Int(2)), "Array(Int(1), Int(2))"),
+		mk(sel, `Select(N("a")).From(N("t"))`), mk(qrb.Exists(sel), "Exists(sel)"), mk(qrb.Any(sel), "Any(sel)"),
+	}
+	rng := rand.New(rand.NewSource(seed + 77))
+	fits := func(v reflect.Value, pt reflect.Type) bool { return v.Type().AssignableTo(pt) }
+	expish := func(pt reflect.Type) bool {
+		return pt.Kind() == reflect.Interface && pt.NumMethod() > 0 && pt.Implements(writerIface)
+	}
+	call := func(fn reflect.Value, args []reflect.Value) (out reflect.Value, ok bool) {
+		defer func() {
+			if recover() != nil {
+				ok = false
+			}
+		}()
+		return fn.Call(args)[0], true
+	}
+	type job struct {
+		name, owner string
+		fn          reflect.Value
+		typ         reflect.Type
+		isMethod    bool
+		args        []reflect.Value
+		prog        string
+	}
+	var unary, binary []job
+	// package-level constructors
+	for _, f := range registry.Funcs {
+		pkg, _, _ := strings.Cut(f.Name, ".")
+		if pkg != "qrb" && pkg != "builder" {
+			continue
+		}
+		ft := f.Fn.Type()
+		if ft.NumOut() != 1 {
+			continue
+		}
+		switch {
+		case ft.NumIn() == 1 && !ft.IsVariadic() && expish(ft.In(0)):
+			for _, a := range cat {
+				if fits(a.v, ft.In(0)) {
+					unary = append(unary, job{f.Name, "", f.Fn, ft, false, []reflect.Value{a.v}, f.Name + "(" + a.p + ")"})
+				}
+			}
+		case ft.NumIn() == 1 && ft.IsVariadic() && expish(ft.In(0).Elem()):
+			for _, a := range cat {
+				if fits(a.v, ft.In(0).Elem()) {
+					unary = append(unary, job{f.Name, "", f.Fn, ft, false, []reflect.Value{a.v}, f.Name + "(" + a.p + ")"})
+					for _, b := range cat {
+						if fits(b.v, ft.In(0).Elem()) {
+							binary = append(binary, job{f.Name, "", f.Fn, ft, false, []reflect.Value{a.v, b.v}, f.Name + "(" + a.p + ", " + b.p + ")"})
+						}
+					}
+				}
+			}
+		case ft.NumIn() == 2 && expish(ft.In(0)) && (expish(ft.In(1)) || (ft.IsVariadic() && expish(ft.In(1).Elem()))):
+			second := ft.In(1)
+			if ft.IsVariadic() {
+				second = second.Elem()
+			}
+			for _, a := range cat {
+				for _, b := range cat {
+					if fits(a.v, ft.In(0)) && fits(b.v, second) {
+						binary = append(binary, job{f.Name, "", f.Fn, ft, false, []reflect.Value{a.v, b.v}, f.Name + "(" + a.p + ", " + b.p + ")"})
+					}
+				}
+			}
+		}
+	}
+	// methods of the catalogue values
+	for _, r := range cat {
+		rt := r.v.Type()
+		for i := 0; i < rt.NumMethod(); i++ {
+			m := rt.Method(i)
+			mt := m.Type
+			if mt.NumOut() != 1 || m.Name == "WriteSQL" {
+				continue
+			}
+			owner := gen.MethodOwner(rt, m.Name)
+			name := rt.Name() + "." + m.Name
+			switch {
+			case mt.NumIn() == 1:
+				unary = append(unary, job{name, owner, r.v.Method(i), mt, true, []reflect.Value{r.v}, r.p + "." + m.Name + "()"})
+			case mt.NumIn() == 2 && mt.In(1).Kind() == reflect.String && mt.In(1).PkgPath() == "":
+				for _, str := range []string{"int2", "x"} {
+					unary = append(unary, job{name, owner, r.v.Method(i), mt, true, []reflect.Value{r.v, reflect.ValueOf(str)}, fmt.Sprintf("%s.%s(%q)", r.p, m.Name, str)})
+				}
+			case mt.NumIn() == 2 && expish(mt.In(1)):
+				for _, a := range cat {
+					if fits(a.v, mt.In(1)) {
+						binary = append(binary, job{name, owner, r.v.Method(i), mt, true, []reflect.Value{r.v, a.v}, r.p + "." + m.Name + "(" + a.p + ")"})
+					}
+				}
+			}
+		}
+	}
+	run := func(j job) {
+		args := j.args
+		if j.isMethod {
+			args = j.args[1:]
+		}
+		out, ok := call(j.fn, args)
+		if !ok || !out.IsValid() {
+			return
+		}
+		if !out.Type().Implements(writerIface) && out.Kind() != reflect.Struct {
+			return // Ident() string, Precedence() int ...
+		}
+		record(j.name, j.owner, j.typ, j.isMethod, j.args, out, j.prog)
+	}
+	for _, j := range unary {
+		run(j)
+	}
+	rng.Shuffle(len(binary), func(a, b int) { binary[a], binary[b] = binary[b], binary[a] })
+	if len(binary) > budget {
+		binary = binary[:budget]
+	}
+	for _, j := range binary {
+		run(j)
 	}
 }
